@@ -83,6 +83,35 @@ example : (findPath fltGraph ne9 1 4).toOption = some { nodes := [1, 3, 5, 4], e
 example : fltGraph.hasNode 4 = true ∧ fltGraph.hasNode 1 = true ∧
     (findPath fltGraph Flt.all 4 1).toOption = none := by decide
 
+/-! ### error taxonomy: a missing endpoint is reported, and nothing else is -/
+
+/-- `find_path` answers `NodeNotFound(n)` exactly for the first missing endpoint -/
+theorem find_path_missing_node (g : Graph) (flt : Flt) (s t n : Nat) :
+    findPath g flt s t = .error (.nodeNotFound n) ↔
+      (g.hasNode s = false ∧ n = s) ∨ (g.hasNode s = true ∧ g.hasNode t = false ∧ n = t) := by
+  unfold findPath findPathWith
+  cases hs : g.hasNode s <;> cases ht : g.hasNode t
+  · simp [eq_comm]
+  · simp [eq_comm]
+  · simp [eq_comm]
+  · simp only [Bool.not_true, Bool.false_eq_true, if_false, Bool.true_eq_false, false_and, and_false, or_self, iff_false]
+    intro h
+    split at h
+    · cases h
+    · split at h <;> cases h
+
+/-- with both endpoints present `find_path` answers a path or `PathNotFound`, never another error -/
+theorem find_path_total (g : Graph) (flt : Flt) (s t : Nat)
+    (hs : g.hasNode s = true) (ht : g.hasNode t = true) :
+    (∃ p, findPath g flt s t = .ok p) ∨ findPath g flt s t = .error .pathNotFound := by
+  unfold findPath findPathWith
+  simp only [hs, ht, Bool.not_true, Bool.false_eq_true, if_false]
+  split
+  · exact Or.inl ⟨_, rfl⟩
+  · split
+    · exact Or.inr rfl
+    · exact Or.inl ⟨_, rfl⟩
+
 /-! ### find_weighted_path: a real walk of the reported weight, optimal for non-negative weights -/
 
 /-- the returned chain starts at `s`, ends at `t`, follows existing edges along their direction and
